@@ -122,10 +122,11 @@ def _edits(kind, c, universe):
                 d["edges"][0][0] = ne
                 out.append(("change-time", d, None))
         if kind == "M":
-            ne = (e0[0], e0[1] + "_x")
-            d = clone()
-            d["edges"][0][0] = ne
-            out.append(("change-layer", d, None))
+            ne = (e0[0], e0[1] + "_x" if isinstance(e0[1], str) else str(e0[1]))  # 1 -> "1": a look-alike of another type
+            if O.cedge(kind, ne) not in present:
+                d = clone()
+                d["edges"][0][0] = ne
+                out.append(("change-layer", d, None))
         if kind == "D":
             ne = (e0[1], e0[0])
             if O.cedge(kind, ne) not in present:
